@@ -1,7 +1,7 @@
 (* Correspondence checker for C20.  A case is one of
      CParse : one line through the real ParseLine           -> the projected item
      CText  : the bytes of a play file through the real LoadFile / ParseByLine and Check
-                                        -> items, number of errors, err != nil, "line too long"
+                                        -> items, number of errors, err != nil, load error
      CFilter: commands and lines through the real FilterLines goroutine -> the lines it let through
    together with the oracle tables the harness recorded from time.ParseDuration, regexp.Compile,
    strconv.Atoi and Regexp.MatchString for exactly the operands of that case.  A case passes when
@@ -95,9 +95,10 @@ Definition case_ok (c : case) : bool :=
   | CParse durs res ints l obs =>
       item_eqb (parse_line (dur_tab durs) (re_tab res) (int_tab ints) l) obs
   | CText durs res ints text obs nerr failed too_long =>
-      let (its, tl) := load_text (dur_tab durs) (re_tab res) (int_tab ints) (text_of text) in
+      (* too_long = "LoadFile returned an error": never, since F14d removed the scanner's limit *)
+      let its := load_text (dur_tab durs) (re_tab res) (int_tab ints) (text_of text) in
       list_eqb item_eqb its obs && (check_count its =? nerr)%N && Bool.eqb (check_fails its) failed
-      && Bool.eqb tl too_long
+      && negb too_long
   | CFilter mt evs obs =>
       list_eqb String.eqb (frun (match_tab mt) fnew evs) obs
   | CStalled mt cap pause evs obs =>
@@ -107,8 +108,7 @@ Definition case_ok (c : case) : bool :=
   end.
 
 (* non-trivial: a parse case whose line the model does NOT simply send verbatim (it is read as a
-   comment or a command, valid or not); a file with both an error and a non-error item, or one
-   that the scanner refuses; a filter
+   comment or a command, valid or not); a file with both an error and a non-error item; a filter
    history in which the model blocks at least one line and passes at least one; a stalled-consumer
    history with more permitted lines than the log channel holds *)
 Definition lines_of (evs : list fev) : list string :=
@@ -119,8 +119,8 @@ Definition case_nontrivial (c : case) : bool :=
   | CParse durs res ints l _ =>
       negb (item_eqb (parse_line (dur_tab durs) (re_tab res) (int_tab ints) l) (ISend l 0 "" 0 0))
   | CText durs res ints text _ _ _ _ =>
-      let (its, tl) := load_text (dur_tab durs) (re_tab res) (int_tab ints) (text_of text) in
-      tl || (existsb is_error its && existsb (fun i => negb (is_error i)) its)
+      let its := load_text (dur_tab durs) (re_tab res) (int_tab ints) (text_of text) in
+      existsb is_error its && existsb (fun i => negb (is_error i)) its
   | CFilter mt evs _ | CCancelled mt evs _ =>
       let out := frun (match_tab mt) fnew evs in
       negb (is_nil out) && (List.length out <? List.length (lines_of evs))%nat
